@@ -1409,6 +1409,9 @@ class Scheduler:
                 # to our detected duplicate expression `expr`.
                 if isinstance(expr2, TaskExpression):
                     expr.call_hash = expr2.call_hash  # ty: ignore[unresolved-attribute]
+                    # Scheduler tasks (cond, catch, seq, ...) have no call_hash; their dataflow
+                    # is kept in _upstreams.
+                    expr._upstreams = expr2._upstreams
                 elif isinstance(expr2, SimpleExpression):
                     expr._upstreams = expr2._upstreams
                 else:
